@@ -123,11 +123,24 @@ def run_registry(acc, srv, key, target_pairs, star=False):
             continue
         if not rw.model:
             continue
+        if rng.random() < 0.5:
+            # administrative actions before the update: pair migrations, another pair code id for future pairs, the factory's own
+            # migration, direct (unauthorised) update messages: the update after them must still reach every affected pair
+            for _ in range(rng.choice([1, 1, 2])):
+                rw.admin_noise(rng, acc, kind=rng.choice(["migrate_pair", "update_config_code", "migrate_factory",
+                                                          "owner_direct_update", "stranger_direct_update"]))
         denom = rng.choice(hot if rng.random() < 0.85 else regd)
         newdec = rng.choice([rw.reg[denom], 0, 6, 18, 255, rng.randrange(0, 256), (rw.reg[denom] + 1) % 256])
         before_dig = digests(rw)
         before_rec = dict((k, (lambda r: r["v"] if r["r"] == "ok" else None)(rw.lookup(*rec["assets"]))) for k, rec in rw.model.items())
-        r = rw.x("owner", rw.factory, {"add_native_token_decimals": {"denom": denom, "decimals": newdec}})
+        if rng.random() < 0.12:
+            # the registration names the denom with blanks around it: ANOTHER string, no pair trades it
+            _, r, padded = rw.admin_noise(rng, acc, kind="padded_denom")
+            if padded is None:
+                continue
+            denom, newdec = padded, rw.reg[padded]
+        else:
+            r = rw.x("owner", rw.factory, {"add_native_token_decimals": {"denom": denom, "decimals": newdec}})
         acc.ev()
         case = {"kind": "registry", "world_key": list(key), "step": step, "denom": denom, "new_decimals": newdec,
                 "pairs": len(rw.model), "result": r["r"], "error": r.get("e", "")[:160] if r["r"] != "ok" else None}
@@ -200,6 +213,9 @@ def floors(acc, tier):
     _w.need(acc, msgs, "updates_with_more_than_10_affected", 40)
     _w.need(acc, msgs, "updates_with_more_than_30_pairs", 20)
     _w.need(acc, msgs, "updates_with_more_than_30_affected", 8)
+    _w.need(acc, msgs, "admin_noise_update_config_code_ok", 20)
+    _w.need(acc, msgs, "admin_noise_migrate_pair_ok", 20)
+    _w.need(acc, msgs, "admin_noise_padded_denom_err", 20)
     if not any("|pos01|" in k for k in acc.classes):
         msgs.append("no update where the denom sat in both positions across pairs")
     return msgs
